@@ -76,6 +76,9 @@ class ExactObserver(object):
         else:
             got = [ctx_tuple(c) for c in st.frames[0].contexts]
             problems += compare_exact(got, exp)
+            if st.frames[0].lineno != st.frames[0].pyframe.f_lineno:
+                # looking at the contexts must not change where the frame is reported to be
+                problems.append("lineno: Frame.lineno %r but the frame is at line %r" % (st.frames[0].lineno, st.frames[0].pyframe.f_lineno))
             if exp and exp[-1][2]:
                 self.shapes.add(("exiting", st.frames[0].pyframe.f_lasti))
             if self.direct:
@@ -104,6 +107,8 @@ class ExactObserver(object):
         else:
             got = [ctx_tuple(c) for c in st.frames[0].contexts]
             problems += compare_exact(got, exp)
+            if st.frames[0].lineno != progframe.f_lineno:
+                problems.append("lineno: Frame.lineno %r but the frame is at line %r" % (st.frames[0].lineno, progframe.f_lineno))
             # the manager being entered must not be listed (already implied by exactness)
             if self.direct:
                 nxt = st.frames[1].pyframe if len(st.frames) > 1 else None
@@ -116,10 +121,10 @@ class ExactObserver(object):
             self.fails.append((where, -n, problems))
 
 
-def run_program(body, kind, ctx, make_observer, case_extra=None, src_withs=None, ns=None):
+def run_program(body, kind, ctx, make_observer, case_extra=None, src_withs=None, ns=None, pad=False):
     """Render+compile+explore one program; report violations through ctx. Returns (npaths, nobs)."""
     if src_withs is None:
-        src, withs = ps.render(body, kind)
+        src, withs = ps.render(body, kind, pad)
     else:
         src, withs = src_withs
     fn = ps.compile_prog(src, ns=ns)
